@@ -73,6 +73,12 @@ func (g *clientGen) socketCases() []KCase {
 	}
 	out = append(out, KCase{Kind: "concsend", Goroutines: 8, Calls: g.ctx.N(25000, 250000)})
 	out = append(out, KCase{Kind: "concsend", Goroutines: 2, Calls: g.ctx.N(50000, 500000)})
+	// concurrent Sends whose wire bytes the kernel echoes back: framing under parallelism
+	// (at most 128 frames per round: the replies must fit the socket's receive buffer)
+	for r := 0; r < g.ctx.N(160, 1600); r++ {
+		G := []int{2, 4, 8, 16}[r%4]
+		out = append(out, KCase{Kind: "concecho", Goroutines: G, Calls: 128 / G})
+	}
 	return out
 }
 
@@ -369,6 +375,133 @@ func runConcSendCase(ctx *Ctx, c KCase, idx int) *common.Violation {
 	if len(all) > 0 && (all[0] != 1 || all[len(all)-1] != uint32(G*M)) {
 		return &common.Violation{Kind: "monitor", Clause: fmt.Sprintf("C18: %d Sends returned sequence numbers %d..%d, expected exactly 1..%d", G*M, all[0], all[len(all)-1], G*M),
 			Input: c, Impl: fmt.Sprintf("%d..%d", all[0], all[len(all)-1]), Case: idx}
+	}
+	return nil
+}
+
+// ---- concurrent Send, wire bytes echoed by the kernel ---------------------------------------------
+//
+// G goroutines x M Sends on one fresh NETLINK_ROUTE client, each message of an unsupported type
+// (the kernel answers NLMSG_ERROR(EOPNOTSUPP) with a verbatim copy of the request) and a payload
+// that names its sender and call (goroutine, index, and a length that depends on the goroutine).
+// Every frame on the wire must carry the sequence number Send returned for exactly that payload.
+
+func runConcEchoCase(ctx *Ctx, c KCase, idx int) *common.Violation {
+	nl, err := libaudit.NewNetlinkClient(syscall.NETLINK_ROUTE, 0, make([]byte, 64*1024), nil)
+	if err != nil {
+		socks.note(ctx, "concecho", "C18 concurrent framing clause NOT explored: cannot open a NETLINK_ROUTE socket: "+err.Error())
+		return nil
+	}
+	defer nl.Close()
+	ctx.Res.Count(c.canon()+fmt.Sprint(idx), true)
+	ctx.Res.Hist("concecho")
+	G, M := c.Goroutines, c.Calls
+	type sent struct {
+		seq uint32
+		err error
+	}
+	res := make([][]sent, G)
+	mkPayload := func(g, i int) []byte {
+		p := make([]byte, 8+4*(g%7))
+		binary.LittleEndian.PutUint32(p[0:], uint32(g))
+		binary.LittleEndian.PutUint32(p[4:], uint32(i))
+		for k := 8; k < len(p); k++ {
+			p[k] = byte(0xA0 + g)
+		}
+		return p
+	}
+	var wg sync.WaitGroup
+	start := make(chan struct{})
+	for g := 0; g < G; g++ {
+		res[g] = make([]sent, M)
+		wg.Add(1)
+		go func(g int) {
+			defer wg.Done()
+			<-start
+			for i := 0; i < M; i++ {
+				msg := syscall.NetlinkMessage{Header: syscall.NlMsghdr{Type: 4242, Flags: syscall.NLM_F_REQUEST}, Data: mkPayload(g, i)}
+				q, err := nl.Send(msg)
+				res[g][i] = sent{q, err}
+			}
+		}(g)
+	}
+	close(start)
+	wg.Wait()
+	viol := func(clause, impl string) *common.Violation {
+		return &common.Violation{Kind: "monitor", Clause: clause, Input: c, Impl: impl, Case: idx}
+	}
+	want := map[uint32][2]int{}
+	for g := range res {
+		for i, s := range res[g] {
+			if s.err != nil {
+				socks.note(ctx, "concecho-senderr", "C18 concurrent framing: a Send failed: "+s.err.Error())
+				return nil
+			}
+			if prev, dup := want[s.seq]; dup {
+				return viol(fmt.Sprintf("C18: concurrent Sends returned sequence %d twice (goroutine %d call %d and goroutine %d call %d)", s.seq, prev[0], prev[1], g, i), "")
+			}
+			want[s.seq] = [2]int{g, i}
+		}
+	}
+	// collect the kernel's echoes
+	seen := map[uint32]bool{}
+	deadline := time.Now().Add(3 * time.Second)
+	overflow := false
+	var raws [][]byte
+	parser := func(b []byte) ([]syscall.NetlinkMessage, error) {
+		raws = append(raws, append([]byte(nil), b...))
+		return nil, nil
+	}
+	for len(seen) < G*M {
+		raws = raws[:0]
+		_, err := nl.Receive(true, parser)
+		if err != nil {
+			if errors.Is(err, syscall.ENOBUFS) {
+				overflow = true
+				continue
+			}
+			if (errors.Is(err, syscall.EAGAIN) || errors.Is(err, syscall.EINTR)) && time.Now().Before(deadline) {
+				time.Sleep(200 * time.Microsecond)
+				continue
+			}
+			break
+		}
+		for _, raw := range raws {
+			// a datagram may hold several replies
+			for len(raw) >= 36 {
+				l := int(binary.LittleEndian.Uint32(raw[0:]))
+				if l < 36 || l > len(raw) {
+					break
+				}
+				one := raw[:l]
+				raw = raw[(l+3)&^3:]
+				if binary.LittleEndian.Uint16(one[4:]) != syscall.NLMSG_ERROR {
+					continue
+				}
+				echo := one[20:]
+				eLen := int(binary.LittleEndian.Uint32(echo[0:]))
+				eSeq := binary.LittleEndian.Uint32(echo[8:])
+				w, ok := want[eSeq]
+				if !ok {
+					return viol(fmt.Sprintf("C18: a frame with sequence %d was on the wire, but no Send returned that number", eSeq), common.Hex(echo))
+				}
+				if seen[eSeq] {
+					return viol(fmt.Sprintf("C18: two frames on the wire carry sequence %d (concurrent Sends)", eSeq), common.Hex(echo))
+				}
+				seen[eSeq] = true
+				p := mkPayload(w[0], w[1])
+				if eLen != 16+len(p) || len(echo) < eLen || !bytes.Equal(echo[16:eLen], p) {
+					return viol(fmt.Sprintf("C18: the frame on the wire with sequence %d does not carry the payload of the Send that returned %d (goroutine %d, call %d): concurrent Sends interfere", eSeq, eSeq, w[0], w[1]),
+						common.Hex(echo))
+				}
+			}
+		}
+	}
+	if len(seen) < G*M && !overflow {
+		return viol(fmt.Sprintf("C18: %d of %d concurrently sent requests were never answered by the kernel (a frame whose header does not match its bytes is dropped silently)", G*M-len(seen), G*M), "")
+	}
+	if overflow {
+		socks.note(ctx, "concecho-overflow", "C18 concurrent framing: receive buffer overflowed in some rounds (those rounds are inconclusive about dropped frames)")
 	}
 	return nil
 }
